@@ -23,6 +23,8 @@ RULE = (
     'every activation boundary bool(expr), bool(~expr), bool(~~expr) read from usim agree with '
     'the evaluator. non-trivial = >= 1 resume after a real wait; distinct = activation trace'
 )
+RULE = RULE + (' Further: enum-like and coarse-equality tracked values, changes through every operator of Tracked, one connective inside several conditions, waiters cancelled right after subscribing, conditions on borrowed blocks, snapshots of resources.levels as operands, date conditions across an aborted simulation.')
+
 LEVEL_TEXT = (
     'Exploration by runtime monitoring against an executable model: an independent boolean '
     'evaluator over a shadow valuation (maintained from the program\'s own set operations) is '
